@@ -8,13 +8,14 @@
      auto_step / run_history the evaluator object with its two structure-only caches
      c15_checkb              the verified checker the harness runs on the implementation's polynomial. *)
 From Coq Require Import List ZArith QArith Bool Arith Ring_polynom Permutation.
-From GV Require Import Lib.Tree Lib.PolyRefl15 Lib.Graph15 Model.AutoEq Proofs.AutoEqP Proofs.AutoEqR.
+From GV Require Import Lib.Tree Lib.PolyRefl15 Lib.Graph15 Model.AutoEq Proofs.AutoEqP Proofs.AutoEqR
+                       Proofs.AutoEqW Proofs.AutoEqC Proofs.AutoEqG.
 Import ListNotations.
 Local Open Scope nat_scope.
 
-(* The full statement (all motif sizes).  NOT proved beyond 5 vertices: see C15_identity_upto_5.
-   For larger motifs the identity is checked on every run by c15_check on the implementation's
-   own polynomial (random connected 6-7 vertex motifs), which is a test, not a theorem. *)
+(* The full statement (all motif sizes, arbitrary vertex labels).  PROVED: C15_identity_general /
+   C15_full_holds below (general regrouping proof, Proofs/AutoEqW.v AutoEqC.v AutoEqG.v).  The bounded
+   reflection result C15_identity_upto_5 is kept as an independent check. *)
 Definition C15_full : Prop :=
   forall (g : graph) (r : nat), wf_graph g = true -> In r (g_nodes g) ->
   forall (phi : Q) (u : nat -> Q), (auto_q g r phi u == expectation g r phi u)%Q.
@@ -35,6 +36,54 @@ Example C15_identity_nonvacuous :
   In [(0,1);(0,2);(1,2);(1,3);(2,3)] (sublists (all_pairs 4)) /\
   length (pe_monos (auto_expr ([0;1;2;3], [(0,1);(0,2);(1,2);(1,3);(2,3)]) 1)) = 32.
 Proof. vm_compute. repeat split. tauto. Qed.
+
+(* GENERAL (every motif size, arbitrary vertex labels): THE REGROUPING IDENTITY.  For every well-formed
+   motif g (distinct nodes, simple edges between listed nodes; connected or not), every root r of g, all
+   rational phi and heterogeneous per-vertex values u, the value of the automated equation
+     sum over the enumerated connected vertex sets C containing r of
+       (1-phi)^(#interface edges of C) * prod_{v in C, v <> r} u v *
+       sum over the edge sets T of the reduced graph of C whose removal keeps it connected of
+         phi^(|E(C)|-|T|) (1-phi)^|T|
+   equals the exact bond-percolation expectation
+     sum over ALL edge subsets S of phi^|S| (1-phi)^(|E|-|S|) prod_{v in comp_S(r), v <> r} u v. *)
+Theorem C15_identity_general :
+  forall (g : graph) (r : nat), wf_graph g = true -> In r (g_nodes g) ->
+  forall (phi : Q) (u : nat -> Q), (auto_q g r phi u == expectation g r phi u)%Q.
+Proof. exact identity_general. Qed.
+Print Assumptions C15_identity_general.
+
+Theorem C15_full_holds : C15_full.
+Proof. exact identity_general. Qed.
+Print Assumptions C15_full_holds.
+
+(* ... and for WHATEVER order the candidate sets are iterated in by the backtracking enumeration
+   (Python set iteration order): [auto_q_ord ord] is the automated equation under the schedule [ord]
+   (any function returning a permutation of its argument), [auto_q] is the instance [ord] = identity. *)
+Theorem C15_identity_general_any_order :
+  forall (ord : list nat -> list nat) (g : graph) (r : nat),
+    (forall l, Permutation (ord l) l) -> wf_graph g = true -> In r (g_nodes g) ->
+    forall (phi : Q) (u : nat -> Q), (auto_q_ord ord g r phi u == expectation g r phi u)%Q.
+Proof. exact identity_general_any_order. Qed.
+Print Assumptions C15_identity_general_any_order.
+
+(* non-vacuity: a motif beyond the reflection bound (6 vertices with non-contiguous labels in shuffled
+   order, 7 edges, two cycles sharing the root's neighbour 3), root 7: the hypotheses hold, there are 22
+   connected vertex sets, the common value is a non-trivial rational; the reversed iteration order visits
+   the sets in another order and gives the same value *)
+Example C15_identity_general_nonvacuous :
+  let g := ([10;3;7;22;5;41], [(10,3);(3,7);(7,10);(7,22);(22,5);(5,41);(3,41)]) in
+  let u := fun v : nat => (Z.of_nat v + 1 # Pos.of_nat (v + 3))%Q in
+  wf_graph g = true /\ In 7 (g_nodes g) /\ (forall l : list nat, Permutation (rev l) l)
+  /\ length (enum g 7) = 22
+  /\ Qred (auto_q g 7 (1#3) u) = (2641687 # 3474900)%Q
+  /\ Qred (expectation g 7 (1#3) u) = (2641687 # 3474900)%Q
+  /\ Qred (auto_q_ord (@rev nat) g 7 (1#3) u) = (2641687 # 3474900)%Q
+  /\ nth 1 (enum g 7) [] = [7; 3] /\ nth 1 (enum_ord (@rev nat) g 7) [] = [7; 22].
+Proof.
+  cbv zeta. split; [reflexivity|]. split; [cbn; tauto|].
+  split; [intros l; apply Permutation_sym, Permutation_rev|].
+  vm_compute. repeat split; reflexivity.
+Qed.
 
 (* GENERAL (any graph size, any schedule): whatever order [ord] the candidate sets are iterated in (any
    function returning a permutation of its argument), the backtracking enumeration returns only vertex
